@@ -64,7 +64,7 @@ PROPS = {
         "assumptions": ["PoolState arithmetic and PoolKey parsing live in the dependency melstructs: modelled (exact Nat arithmetic for BigRational floor), compared on every seal"],
     },
     "C16": {
-        "modules": ["C16"],
+        "modules": ["C16", "C16Hist"],
         "streams": [{"name": "seal", "quick": 180, "thorough": 7200}],
         "projection": "pools",
         "oracles": ["pools"],
@@ -91,7 +91,7 @@ PROPS = {
         "assumptions": ["faucet marker ids are disjoint from transaction hashes (domain-separated keyed hash) — hypothesis MarkersApart of C02_exact"],
     },
     "C03": {
-        "modules": ["C03"],
+        "modules": ["C03", "C03Seq"],
         "streams": [{"name": "apply", "quick": 135, "thorough": 4800, "rayon": [1, 4, 2, 16]}, {"name": "chain", "quick": 60, "thorough": 2400, "rayon": [1, 3]},
                     {"name": "mint", "quick": 180, "thorough": 4800}],
         "projection": "batch_all",
@@ -158,7 +158,7 @@ PROPS = {
         "assumptions": ["no covenant hashes to the zero address; marker ids are disjoint from transaction hashes and reward ids (keyed-hash domain separation)"],
     },
     "C20": {
-        "modules": ["C20"],
+        "modules": ["C20", "Reach"],
         "streams": [{"name": "apply", "quick": 120, "thorough": 4800}, {"name": "seal", "quick": 120, "thorough": 4800}, {"name": "chain", "quick": 90, "thorough": 3200}],
         "projection": "counts",
         "oracles": ["counts"],
